@@ -6,7 +6,7 @@
 (* The visit events are stepped through the Visit action of Typegen.tla; at the end the    *)
 (* abstract predicates are evaluated on the implementation's output, and the output is     *)
 (* compared with the model's prediction (drift).                                           *)
-EXTENDS Typegen, Json, IOUtils
+EXTENDS Source, Json, IOUtils
 
 Obs == ndJsonDeserialize(IOEnv.OBS)
 
@@ -96,6 +96,75 @@ PathFailures == IF ~GenOk THEN {} ELSE {id \in Ids(Reg) : Run.paths[id + 1].res 
 C02_Failed == IF ~GenOk THEN {} ELSE (IF Run.gen.parse_ok THEN {} ELSE {"Parses"}) \cup RustWfFailed(S, Run.gen.module)
 HasFamily == \E p \in UserPaths(Reg) : Cardinality(IdsOfPath(Reg, p)) > 1
 
+\* ids the model keeps on an occupied path although their own candidate item differs from the kept one
+BadlyKept == LET mf == ModelFinal IN
+             {g \in Ids(Reg) : IsUserPath(Ty(Reg, g).path) /\ IsNamedDef(Ty(Reg, g).def)
+                               /\ \E k \in DOMAIN mf.items : /\ mf.items[k].path = Ty(Reg, g).path /\ mf.items[k].id # g
+                                                              /\ ~CoRepItems(Reg, S, g, mf.items[k].id)}
+
+(* ---- C05: the item of every definition is the expected item derived from the source program ---- *)
+Prog == O.input.prog
+HasProg == Len(Prog.defs) > 0
+C05_Domain == HasProg /\ O.input.tog /\ GenOk
+C05_BadDefs == IF ~C05_Domain THEN {}
+               ELSE {d.name : d \in {x \in C05Defs(Prog, O.input.sroots) : SubFor(S, x.mod \o <<x.ident>>) = 0 /\
+                        LET it == FindItem(Root, <<S.root>> \o x.mod \o <<x.ident>>) IN
+                        it.kind = "none" \/ ~ItemAgrees(ExpectedItem(Prog, S, x), it)}}
+\* all instantiations yield one and the same item: every id of the definition's path is named by that path with one argument per live parameter
+C05_BadIds == IF ~C05_Domain THEN {}
+              ELSE {id \in Ids(Reg) : \E d \in C05Defs(Prog, O.input.sroots) :
+                      /\ Ty(Reg, id).path = d.mod \o <<d.ident>> /\ SubFor(S, Ty(Reg, id).path) = 0
+                      /\ LET t == Run.paths[id + 1].ty IN
+                         ~(Run.paths[id + 1].res = "ok" /\ t.k = "path" /\ ~t.lead /\ t.segs = <<S.root>> \o Ty(Reg, id).path
+                           /\ Len(t.args) = Len(LiveGenerics(d)))}
+
+(* ---- C17: renumbering / order (runs 2.. = permuted registries), restriction (retain) ---- *)
+PermRuns == {k \in DOMAIN O.runs : k > 1}
+SamePartition(Ra, Rb, pi) ==   \* Ra, Rb de-duplicated registries of the original and of the permuted registry
+  Len(Ra) = Len(Rb) /\ \A i, j \in Ids(Ra) : (Ra[i + 1].path = Ra[j + 1].path) <=> (Rb[pi[i + 1] + 1].path = Rb[pi[j + 1] + 1].path)
+C17_Failed ==
+  IF ~(O.input.tog /\ IdsConsistent(Reg)) THEN {}
+  ELSE (IF \A k \in PermRuns : O.runs[k].gen.res = Run.gen.res /\ O.runs[k].gen.fp = Run.gen.fp THEN {} ELSE {"TokensInvariantUnderRenumbering"})
+       \cup (IF \A k \in PermRuns : (Run.dedup.res = "ok" /\ O.runs[k].dedup.res = "ok") =>
+                   SamePartition(Run.dedup.reg, O.runs[k].dedup.reg, O.input.perms[k - 1]) THEN {} ELSE {"RenamePartitionInvariant"})
+       \cup (IF ~GenOk \/ Run.retain.res # "ok" \/ Run.retain.gen.res # "ok" THEN (IF GenOk /\ (Run.retain.res # "ok" \/ Run.retain.gen.res # "ok") THEN {"RestrictionGenerates"} ELSE {})
+             ELSE LET R2 == RootOf(Run.retain.gen.module)
+                      its2 == AllItems(R2)
+                      its1 == AllItems(Root)
+                  IN IF \A a \in DOMAIN its2 : \E b \in DOMAIN its1 : its1[b].path = its2[a].path /\ its1[b].it = its2[a].it
+                     THEN {} ELSE {"RestrictionSameItems"})
+
+(* ---- C18: standalone structs built from a field list through the public API ---- *)
+\* registry field list of composite record k
+CompFields(k) == LET e == Ty(Reg, k.id) IN IF k.variant = -1 THEN e.def.fields ELSE e.def.variants[k.variant + 1].fields
+CompName(k) == LET e == Ty(Reg, k.id) IN IF k.variant = -1 THEN Ident(e.path) ELSE e.def.variants[k.variant + 1].name
+OwnItem(k) == FindItem(Root, <<S.root>> \o Ty(Reg, k.id).path)
+\* the enum's / struct's own field list in the generated module
+OwnFields(k) == LET it == OwnItem(k) IN IF k.variant = -1 THEN RealFields(it.fields) ELSE RealFields(it.variants[k.variant + 1].fields)
+\* Cow is transparent: a Cow of an unsigned integer is an unsigned integer on the wire and in the generated type
+SingleUnsigned(fields) == Len(fields) = 1 /\ HasId(Reg, UnCow(Reg, fields[1].ty)) /\ Ty(Reg, UnCow(Reg, fields[1].ty)).def.k = "prim"
+                          /\ Ty(Reg, UnCow(Reg, fields[1].ty)).def.p \in UnsignedPrims
+C18_Check(k, withFaithful) ==
+  /\ k.res = "ok" /\ k.parse_ok
+  /\ k.item.kind = "struct" /\ k.item.name = CompName(k) /\ Len(k.item.generics) = 0
+  /\ Len(k.item.fields) = Len(OwnFields(k))
+  /\ \A j \in DOMAIN k.item.fields :
+       LET a == k.item.fields[j]  b == OwnFields(k)[j]  f == CompFields(k)[j] IN
+       /\ a.name = b.name /\ a.compact = b.compact /\ ~a.skip /\ a.vis
+       /\ Unbox(S, a.ty) = Unbox(S, b.ty)                    \* refers to the same generated items as the type's own item
+       /\ IsBox(S, a.ty) <=> Contains(f.tn, "Box<")         \* the Box marker of this very field list
+  /\ (withFaithful => FieldsFaithful(Reg, S, Root, CompFields(k), k.item.fields, <<>>, <<>>))
+  /\ RangeOf(k.item.derives) = GlobalDerives(S) \cup (IF S.has_compact_as /\ SingleUnsigned(CompFields(k)) THEN {CompactAsStr(S)} ELSE {})
+  /\ RangeOf(k.item.attrs) = GlobalAttrs(S)
+  /\ k.item.docs = DocsOf(S, IF k.variant = -1 THEN Ty(Reg, k.id).docs ELSE Ty(Reg, k.id).def.variants[k.variant + 1].docs)
+C18_Domain == IF ~GenOk THEN {}
+              ELSE {i \in DOMAIN Run.composites : LET own == OwnItem(Run.composites[i]) IN own.kind # "none" /\ Len(own.generics) = 0}
+C18_Bad == {i \in C18_Domain : ~C18_Check(Run.composites[i], TRUE)}
+\* bad only because a field type is one of the conflated types of a known C03 finding
+C18_BadOnlyByConflation == {i \in C18_Bad : \/ Run.composites[i].id \in BadlyKept     \* its own path's item belongs to another type
+                                             \/ /\ C18_Check(Run.composites[i], FALSE)
+                                                /\ \E f \in RangeOf(CompFields(Run.composites[i])) : Reach(Reg, f.ty) \cap BadlyKept # {}}
+
 Failed ==
   \* C01: well-formed, coincidence-free registries (cf is evaluated on the source program by the case generator)
   (IF O.input.cf /\ UnfaithfulIds # {} THEN {"C01.Faithful"} ELSE {})
@@ -106,25 +175,26 @@ Failed ==
   \* C03: same-path families, not restricted to coincidence-free ones
   \cup (IF HasFamily /\ UnfaithfulIds # {} THEN {"C03.Faithful"} ELSE {})
   \cup (IF HasFamily /\ Run.gen.res \notin {"ok", "DuplicateTypePath"} THEN {"C03.OkOrDuplicate"} ELSE {})
+  \cup (IF C05_BadDefs # {} THEN {"C05.ItemIsSourceDefinition"} ELSE {})
+  \cup (IF C05_BadIds # {} THEN {"C05.OneItemForAllInstantiations"} ELSE {})
+  \cup {"C17." \o x : x \in C17_Failed}
+  \cup (IF C18_Bad # {} THEN {"C18.StandaloneStruct"} ELSE {})
   \* C10: fault-free well-formed input never fails except with the duplicate-path error, never panics
   \cup (IF Run.gen.res \notin {"ok", "DuplicateTypePath"} THEN {"C10.OnlyDuplicatePath"} ELSE {})
   \cup (IF \E id \in Ids(Reg) : Run.paths[id + 1].res = "panic" THEN {"C10.ResolveNoPanic"} ELSE {})
 
 (* ---- attribution to known findings (DESIGN.md 2.8): a failed predicate is explained by a ----
    ---- site only if the implementation did exactly what the concrete model documents      ---- *)
-\* ids the model keeps on an occupied path although their own candidate item differs from the kept one
-BadlyKept == LET mf == ModelFinal IN
-             {g \in Ids(Reg) : IsUserPath(Ty(Reg, g).path) /\ IsNamedDef(Ty(Reg, g).def)
-                               /\ \E k \in DOMAIN mf.items : /\ mf.items[k].path = Ty(Reg, g).path /\ mf.items[k].id # g
-                                                              /\ ~CoRepItems(Reg, S, g, mf.items[k].id)}
 Known ==
   IF Drift THEN {}
   ELSE (IF UnfaithfulIds # {} /\ \A id \in UnfaithfulIds : Reach(Reg, id) \cap BadlyKept # {}
         THEN {<<"C03.Faithful", "KeepFirst.CandidateItemsDiffer">>} ELSE {})
+       \cup (IF C18_Bad # {} /\ C18_Bad = C18_BadOnlyByConflation THEN {<<"C18.StandaloneStruct", "KeepFirst.CandidateItemsDiffer">>} ELSE {})
 
 Verdict == Terminal =>
   PrintT("V " \o ToJson([case |-> O.case, failed |-> Failed, drift |-> Drift, rejected |-> rejected, at |-> l,
                          gen |-> Run.gen.res, model |-> ModelFinal.res, unfaithful |-> UnfaithfulIds,
-                         family |-> HasFamily, cf |-> O.input.cf, known |-> Known,
+                         family |-> HasFamily, cf |-> O.input.cf, known |-> Known, c05 |-> C05_Domain, ncomp |-> Len(Run.composites),
+                         c05bad |-> C05_BadDefs, c18bad |-> C18_Bad,
                          outs |-> {Evs[i].out : i \in {j \in DOMAIN Evs : Evs[j].ev = "visit"}}]))
 =================================================================================
